@@ -97,16 +97,20 @@ func defaultStyle() *style {
 
 type election[T comparable] struct {
 	votes map[T]int
+	order []T // The values in the order in which they were voted for first.
 }
 
 func newElection[T comparable]() election[T] {
-	return election[T]{make(map[T]int)}
+	return election[T]{votes: make(map[T]int)}
 }
 
 // vote casts a vote for the style, but only if it’s explicit.
 func (e *election[T]) vote(style styleProp[T]) {
 	if !style.isExplicit {
 		return
+	}
+	if _, hasVotes := e.votes[style.value]; !hasVotes {
+		e.order = append(e.order, style.value)
 	}
 	e.votes[style.value] += 1
 }
@@ -115,7 +119,10 @@ func (e *election[T]) vote(style styleProp[T]) {
 func (e *election[T]) tallyUp(defaultValue T) T {
 	max := 0
 	result := defaultValue
-	for value, count := range e.votes {
+	// Go through the values in the order of their first appearance (not in the
+	// random iteration order of the map), so that a tie is resolved predictably.
+	for _, value := range e.order {
+		count := e.votes[value]
 		if count > max {
 			max = count
 			result = value
